@@ -241,10 +241,10 @@ fn c15_alist_name() {
 
 /// Association-list lookup by value key: the cdr of the first entry whose car equals the key value (same kind AND
 /// payload); None / nil otherwise.
-/// @bound alists of 0..=2 entries, keys symbol or number (2 payloads each) or non-pair entries, symbolic key value
+/// @bound alists of 0..=2 entries, keys string / symbol / keyword / number (2 payloads each) or non-pair entries, symbolic key value
+/// @unwindset <lexpr::Value as std::cmp::PartialEq>::eq:1; <lexpr::Value as std::cmp::PartialEq>::ne:1
 /// @encodes value::index::<impl Index for Value>::index_into, match_pair_key
-/// @tier thorough
-/// @timeout 1500
+/// @timeout 900
 #[kani::proof]
 #[kani::unwind(6)]
 fn c15_alist_value() {
@@ -255,7 +255,7 @@ fn c15_alist_value() {
     let vals: [i64; 3] = kani::any();
     let mut i = 0;
     while i < 3 {
-        kani::assume((kinds[i] == 1 || kinds[i] == 3 || kinds[i] == 4) && keys[i] >= b'a' && keys[i] <= b'b');
+        kani::assume(kinds[i] <= 4 && keys[i] >= b'a' && keys[i] <= b'b');
         i += 1;
     }
     let mut v = Value::Null;
@@ -271,7 +271,7 @@ fn c15_alist_value() {
     }
     let qk: u8 = kani::any();
     let qb: u8 = kani::any();
-    kani::assume((qk == 1 || qk == 3) && qb >= b'a' && qb <= b'b');
+    kani::assume(qk <= 3 && qb >= b'a' && qb <= b'b');
     let key = key_value(qk, qb);
     let mut exp: Option<i64> = None;
     let mut i = 0;
